@@ -206,10 +206,119 @@ pub fn c03_scenario(seed: u64, idx: u64) -> Scenario {
     sc
 }
 
+// ---------------------------------------------------------------------------------- large files
+// Sparse files (see `Content::Sparse`): "big" ones that can still be served whole (2 MiB - 128 MiB,
+// around the powers of two a buffering or chunking threshold would sit at) and "huge" ones beyond
+// 2^31 / 2^32 bytes of which only short slices are requested.
+
+const BIG: &[u64] = &[(2 << 20) + 1, (8 << 20) + 1, (16 << 20) + 5, (32 << 20) + 3, (64 << 20) - 1, 64 << 20, (64 << 20) + 4096, 100_000_000, (128 << 20) + 1];
+const HUGE: &[u64] = &[(1 << 31) - 1, 1 << 31, (1 << 31) + 10, (1 << 32) - 1, 1 << 32, (1 << 32) + 4096, 5 * (1 << 30) + 7];
+
+/// a short in-file spec: next to an island, at the end, or anywhere
+pub fn narrow_spec(l: u64, rng: &mut crate::util::Rng) -> String {
+    let near = |rng: &mut crate::util::Rng| -> u64 {
+        match rng.below(4) {
+            0 => {
+                // around a power of two below l
+                let mut ks: Vec<u32> = vec![];
+                let mut k = 12u32;
+                while (1u64 << k) < l {
+                    ks.push(k);
+                    k += 1;
+                }
+                let c = 1u64 << *rng.pick(&ks);
+                (c - 40 + rng.below(80) as u64).min(l - 1)
+            }
+            1 => l - 1 - rng.below(100) as u64,
+            2 => rng.below(100) as u64,
+            _ => rng.next() % l,
+        }
+    };
+    match rng.below(4) {
+        0 | 1 => {
+            let a = near(rng);
+            let span = if rng.chance(1, 4) { 65_536 } else { 100 };
+            let b = (a + rng.below(span) as u64).min(l - 1);
+            format!("{}-{}", a, b)
+        }
+        2 => format!("{}-", l - 1 - rng.below(200) as u64),
+        _ => format!("-{}", 1 + rng.below(200)),
+    }
+}
+
+/// a spec that covers (nearly) the whole file
+fn wide_spec(l: u64, rng: &mut crate::util::Rng) -> String {
+    match rng.below(6) {
+        0 => "0-".into(),
+        1 => format!("-{}", l),
+        2 => format!("0-{}", l - 1),
+        3 => format!("{}-", rng.below(5000)),
+        4 => format!("-{}", l - rng.below(5000) as u64),
+        _ => format!("{}-{}", rng.below(5000), l - 1 - rng.below(5000) as u64),
+    }
+}
+
+pub fn large_scenario(prop: &str, seed: u64, idx: u64) -> Scenario {
+    let mut rng = rng_for(seed, prop, "large_files", idx);
+    let mut sc = Scenario::base(prop, "large_files", idx);
+    sc.engine = Engine::System;
+    sc.sched = pick_sched(&mut rng);
+    sc.workers = rng.range(1, 2);
+    sc.request_size = 10000;
+    sc.yields = pick_yields(&mut rng);
+    let huge = prop == "C03" && rng.chance(1, 2);
+    let l = if huge { *rng.pick(HUGE) } else { *rng.pick(BIG) };
+    let (name, via) = match rng.below(3) {
+        0 => ("big.bin", "/big.bin"),
+        1 => ("big.html", "/big"),
+        _ => ("v/index.html", "/v/"),
+    };
+    sc.tree = TreeSpec { root: "root".into(), entries: vec![Entry { path: format!("root/{}", name), kind: EntryKind::File(Content::Sparse { len: l, seed: rng.next() }) }], mtime_mode: 0 };
+    if prop == "C02" {
+        sc.conns.push(Conn::simple(0, 0, req("GET", via, &[], b""), "large"));
+        return sc;
+    }
+    let n = if huge { rng.range(1, 4) } else { 1 };
+    for i in 0..n {
+        let mut specs: Vec<String> = vec![];
+        if rng.chance(1, 5) {
+            // very many one-byte parts: sums over the parts grow with parts x file size
+            for _ in 0..*rng.pick(&[40usize, 300, 1200, 2300]) {
+                let a = rng.below(10);
+                specs.push(format!("{}-{}", a, a));
+            }
+        } else if huge || rng.chance(1, 3) {
+            for _ in 0..rng.range(1, 3) {
+                specs.push(narrow_spec(l, &mut rng));
+            }
+        } else {
+            // at most two wide parts (each is held in memory several times over)
+            specs.push(wide_spec(l, &mut rng));
+            match rng.below(3) {
+                0 => {}
+                1 => specs.push(narrow_spec(l, &mut rng)),
+                _ => specs.push(wide_spec(l, &mut rng)),
+            }
+            if rng.chance(1, 2) {
+                specs.reverse();
+            }
+        }
+        let rv = format!("bytes={}", specs.join(if specs.len() < 10 && rng.chance(1, 2) { ", " } else { "," }));
+        sc.conns.push(Conn::simple(i, i as u32, req("GET", via, &[("Range", &rv)], b""), "range"));
+    }
+    sc
+}
+
 pub fn plan_c02(tier: Tier, seed: u64) -> Vec<Campaign> {
-    vec![Campaign { name: "lookup", budget: match tier { Tier::Quick => Budget::Count(4000), Tier::Thorough => Budget::Time(1) }, exhaustive: false, gen: Box::new(move |i| c02_scenario(seed, i)) }]
+    vec![
+        Campaign { name: "lookup", budget: match tier { Tier::Quick => Budget::Count(4000), Tier::Thorough => Budget::Time(1) }, exhaustive: false, gen: Box::new(move |i| c02_scenario(seed, i)) },
+        Campaign { name: "large_files", budget: Budget::Count(match tier { Tier::Quick => 32, Tier::Thorough => 320 }), exhaustive: false, gen: Box::new(move |i| large_scenario("C02", seed, i)) },
+    ]
 }
 
 pub fn plan_c03(tier: Tier, seed: u64) -> Vec<Campaign> {
-    vec![Campaign { name: "ranges", budget: match tier { Tier::Quick => Budget::Count(6000), Tier::Thorough => Budget::Time(1) }, exhaustive: false, gen: Box::new(move |i| c03_scenario(seed, i)) }]
+    vec![
+        Campaign { name: "ranges", budget: match tier { Tier::Quick => Budget::Count(6000), Tier::Thorough => Budget::Time(1) }, exhaustive: false, gen: Box::new(move |i| c03_scenario(seed, i)) },
+        Campaign { name: "large_files", budget: Budget::Count(match tier { Tier::Quick => 96, Tier::Thorough => 1600 }), exhaustive: false, gen: Box::new(move |i| large_scenario("C03", seed, i)) },
+    ]
 }
